@@ -16,8 +16,9 @@ Side-effect freedom is structural in the model (`schedule` is a function of immu
 and returns decisions only); the tie to the code is the suite, which snapshots every getter
 of the live cluster and every task field before and after the real call.
 
-LSF (finding D13): `jointly_feasible` needs `C13.LsfSafe`; outside that class the reported
-placements can over-commit a worker (`lsf_overcommit_counterexample`).
+LSF: finding D13 (the virtual cluster was charged with another strategy than the reported one, so
+the reported placements could over-commit a worker) is fixed in /repo 366b4de; `jointly_feasible`
+holds for all three policies.
 -/
 namespace ErdosVerif.C10_Greedy
 open ErdosVerif.Model ErdosVerif.Model.Greedy
@@ -85,38 +86,19 @@ theorem placement_time (cfg : Cfg) (offer : List Offered) (live : List Pool) (r 
   · rw [ht] at hτ; cases hτ
     exact ⟨rfl, hrel o hoff⟩
 
-/-- (Common form; see `jointly_feasible` and `jointly_feasible_lsf_partial` below.) The copy the policy plans on and the virtual cluster at return
-satisfy the ledger invariant; availability only went down; and (EDF, FIFO; LSF on
-`LsfSafe` inputs) the virtual cluster at return is exactly the copy of the live cluster —
-running tasks included — charged in order with the reported placements through the ledger
-API.  So the reported placements, performed in order on the live occupancy, all succeed and
-leave a consistent ledger. -/
-theorem jointly_feasible_of_safe (cfg : Cfg) (offer : List Offered) (live : List Pool) (r : Result)
-    (h : schedule cfg offer live = .ok r) (hinv : ClusterInv live)
-    (hs : cfg.policy.passesStrategy = true ∨ C13.LsfSafe offer live) :
+/-- **jointly_feasible** — EDF, FIFO and LSF. The copy the policy plans on and the virtual
+cluster at return satisfy the ledger invariant; availability only went down; and the virtual
+cluster at return is exactly the copy of the live cluster — running tasks included — charged in
+order with the reported placements through the ledger API.  So the reported placements, performed
+in order on the live occupancy, all succeed and leave a consistent ledger. -/
+theorem jointly_feasible (cfg : Cfg) (offer : List Offered) (live : List Pool) (r : Result)
+    (h : schedule cfg offer live = .ok r) (hinv : ClusterInv live) :
     ClusterInv r.virt0 ∧ ClusterInv r.virt ∧ ClusterLe r.virt r.virt0 ∧
     accountAll r.virt0 r.order r.placements = r.virt := by
   obtain ⟨hc, _, _, hr⟩ := schedule_ok cfg offer live r h
   have h0 := copyPools_inv live r.virt0 hinv hc
   have h1 := run_le cfg r.virt0 r.order r.placements r.virt h0 hr
-  exact ⟨h0, h1.1, h1.2, C13.reported_accounting_of_safe cfg offer live r h hinv hs⟩
-
-/-- **jointly_feasible**, full strength for EDF and FIFO (`C13.passes_edf_fifo`; LSF once repaired). -/
-theorem jointly_feasible (cfg : Cfg) (offer : List Offered) (live : List Pool) (r : Result)
-    (h : schedule cfg offer live = .ok r) (hinv : ClusterInv live)
-    (hp : cfg.policy.passesStrategy = true) :
-    ClusterInv r.virt0 ∧ ClusterInv r.virt ∧ ClusterLe r.virt r.virt0 ∧
-    accountAll r.virt0 r.order r.placements = r.virt :=
-  jointly_feasible_of_safe cfg offer live r h hinv (.inl hp)
-
-/-- PARTIAL (LSF as it is). Full statement: `jointly_feasible` for `cfg.policy = .lsf` without
-`C13.LsfSafe` — false for the current code (`lsf_overcommit_counterexample`). Proved: any policy
-on inputs where every offered task has at most one strategy or every pool at most one worker. -/
-theorem jointly_feasible_lsf_partial (cfg : Cfg) (offer : List Offered) (live : List Pool) (r : Result)
-    (h : schedule cfg offer live = .ok r) (hinv : ClusterInv live) (hs : C13.LsfSafe offer live) :
-    ClusterInv r.virt0 ∧ ClusterInv r.virt ∧ ClusterLe r.virt r.virt0 ∧
-    accountAll r.virt0 r.order r.placements = r.virt :=
-  jointly_feasible_of_safe cfg offer live r h hinv (.inr hs)
+  exact ⟨h0, h1.1, h1.2, C13.reported_accounting cfg offer live r h hinv⟩
 
 /-- **The plan starts from the live occupancy**: the copy the policy plans on has the same pools
 and workers as the live cluster, with the same totals, the same availability per resource type and
@@ -202,16 +184,15 @@ example : ∀ o ∈ Witness.offer, NiceTask o := by
   · subst hs; exact ⟨rfl, by unfold Resources.NiceReq; decide⟩
   · subst hs; exact ⟨rfl, by unfold Resources.NiceReq; decide⟩
 
-/-! ### LSF as it is: the reported placements can over-commit a worker -/
+/-! ### the former D13 witness -/
 
 open Witness in
-/-- **Finding D13 (C10 face), machine checked.** On the witness of `C13.lsf_inversion_counterexample`
-LSF reports A and C both on a GPU strategy in the pool whose only GPU worker has a single GPU:
-after charging A's reported placement, C's reported strategy no longer fits any worker of the
-pool it names. -/
-theorem lsf_overcommit_counterexample :
+/-- On the input of the former finding D13 (LSF reported A and C both on the single GPU; fixed in
+/repo 366b4de) every reported placement of LSF now fits the cluster charged with the earlier
+reported placements: C is left unplaced and does not fit after A and B. -/
+example :
     ∃ r, schedule (cfg .lsf) offer live = .ok r ∧
-      (summary r == [(⟨0, 0⟩, some 0, some 0), (⟨1, 0⟩, none, none), (⟨2, 0⟩, some 0, some 3)]
+      (summary r == [(⟨0, 0⟩, some 0, some 0), (⟨1, 0⟩, some 0, some 2), (⟨2, 0⟩, none, none)]
         && !fitsSomewhere (accountAll r.virt0 (r.order.take 2) (r.placements.take 2)) sC) = true :=
   ok_of_match _ _ (by decide)
 
